@@ -251,6 +251,7 @@ func TestC19(t *testing.T) {
 		}
 	}
 	st.SetExhaustive(true)
+	rapidProp(t, st, "state-faults", perShard(pick(1600, 20000)), 32, sfGen, func(p sfPlan) *viol { return sfRun(t, st, p) })
 }
 
 // ---- wide walks: one in-memory instance carried through a whole history of a round with many participants, against a
